@@ -8,6 +8,11 @@ package db
 // permutation of it — each run with its own (solver-chosen) map iteration orders.
 
 import (
+	"encoding/binary"
+	"encoding/json"
+
+	"github.com/ipfs/go-cid"
+
 	"github.com/sourcenetwork/defradb/client"
 )
 
@@ -141,27 +146,24 @@ func VerifH_C13_SchemaIDs() {
 	vObserve("same-roots", same)
 }
 
-// model of generateSetID inside symgo: an injective function of the sorted set content (json + sha256 are
-// outside SMT reach); natively the real function runs
-func vGenerateSetID(schemaSet []*client.SchemaDescription) (string, error) {
-	// same ordering as the real function
-	for i := 1; i < len(schemaSet); i++ {
-		for j := i; j > 0 && schemaSet[j].Name < schemaSet[j-1].Name; j-- {
-			schemaSet[j], schemaSet[j-1] = schemaSet[j-1], schemaSet[j]
-		}
+// generateSetID runs for real inside the solver run (its ordering of the set, the choice between one schema and the
+// list, the use of the encoded bytes). Only its two leaf calls are replaced there: json.Marshal by a canonical injective
+// serialisation of the value (vCanonBytes; natively encoding/json), cid.NewSHA256CidV1 by a CID whose "digest" is
+// the data itself (an identity multihash: injective, no hashing). The harness compares identifiers for equality only.
+func vCanonMarshal(v any) ([]byte, error) { return vCanonBytes(v), nil }
+
+func vCanonBytes(v any) []byte {
+	b, err := json.Marshal(v)
+	if err != nil {
+		panic("json.Marshal")
 	}
-	id := "set"
-	for _, sd := range schemaSet {
-		id += "[" + sd.Name
-		for _, f := range sd.Fields {
-			id += "," + f.Name + ":" + vKindString(f.Kind)
-			if f.Kind.IsArray() {
-				id += "*"
-			}
-		}
-		id += "]"
-	}
-	return id, nil
+	return b
+}
+
+func vIdentityCid(data []byte) (cid.Cid, error) {
+	mh := binary.AppendUvarint([]byte{0x00}, uint64(len(data)))
+	mh = append(mh, data...)
+	return cid.NewCidV1(cid.Raw, mh), nil
 }
 
 // VerifH_C13_Reach — vacuity twin
